@@ -51,6 +51,18 @@ def work_theorem(args):
     thm = [t for t in REGISTRY if t.name == tname][0]
     t0 = time.time()
     out = {"theorem": tname, "obligations": [], "unsupported": None, "paths": 0, "notes": {}, "error": None}
+    if thm.options.get("bounded_only"):
+        # bounded stand-in: runtime contract check of the real code over a stated finite input set; never 'proved'
+        n = 0
+        for inp in thm.options["bounded_inputs"]():
+            r = replay.native_check(thm, inp)
+            n += 1
+            if r["status"] == "violation":
+                out["native_violation"] = {"inputs_repr": repr(inp), "result": r}
+                break
+        out["bounded"] = {"cases": n, "bound": thm.options.get("bound", "")}
+        out["wall_s"] = time.time() - t0
+        return out
     try:
         if kf_classes:
             import copy
@@ -59,6 +71,7 @@ def work_theorem(args):
         res = verify.generate(thm)
         out["paths"] = res.paths
         out["unsupported"] = res.unsupported
+        out["frame_violation"] = res.frame_violation
         if res.unsupported and not kf_classes:
             # the code left the verifier's subset: runtime contract checking of the real code is the bounded stand-in
             ns = native_search(thm, 300 if tier == "quick" else 20000, seed)
@@ -229,6 +242,7 @@ def run_property(prop, tier, seed, only=None, keep=False, jobs=None, replays_dir
     violations = []
     undecided = []
     errors = []
+    bounded = []
     bpath = os.path.join(VERIF, "baseline_obligations.json")
     baseline = set(json.load(open(bpath)).get(prop, [])) if os.path.exists(bpath) else set()
     n_obl = n_dis = 0
@@ -246,6 +260,28 @@ def run_property(prop, tier, seed, only=None, keep=False, jobs=None, replays_dir
     for t, res in zip(thms, results):
         if res["error"]:
             errors.append(f"{t.name}: {res['error']}")
+            continue
+        if res.get("bounded"):
+            bounded.append({"theorem": t.name, "tool": "runtime contract check of the real code (native)",
+                            "bound": res["bounded"]["bound"], "cases_run": res["bounded"]["cases"],
+                            "clause": [c for case in t.cases for _, c in case.clauses()],
+                            "violated": bool(res.get("native_violation"))})
+            if res.get("native_violation"):
+                nv = res["native_violation"]
+                cl = nv["result"]
+                gname = f"{t.name}.{cl.get('case')}.{cl.get('clause')}"
+                violations.append({"property": prop, "theorem": t.name, "obligation": gname, "group": gname,
+                                   "status": "native", "inputs_repr": nv["inputs_repr"],
+                                   "inputs": replay.jsonable(ast.literal_eval(nv["inputs_repr"])), "native": cl,
+                                   "input_source": "bounded stand-in (runtime contract check of the real code)",
+                                   "body": t.body, "requires": t.requires})
+            continue
+        if res.get("frame_violation") and f"{t.name}.frame" in baseline:
+            violations.append({"property": prop, "theorem": t.name, "obligation": f"{t.name}.frame", "group": f"{t.name}.frame",
+                               "status": "refuted", "clause": "modifies nothing that outlives the call",
+                               "solver": "pyvc frame analysis", "solver_detail": res["frame_violation"],
+                               "no_failing_input_found": True, "body": t.body, "requires": t.requires,
+                               "got": res["frame_violation"], "want": "no assignment into module-level objects"})
             continue
         if res["unsupported"]:
             if res.get("native_violation"):
@@ -442,6 +478,7 @@ def run_property(prop, tier, seed, only=None, keep=False, jobs=None, replays_dir
                         "theorems_with_zero_obligations": 0 if not errors else len([e for e in errors if "zero obligations" in e])},
             "samples": samples or [{"obligation": g} for g in list(groups)[:3]],
             "undecided": undecided,
+            "bounded_standins": bounded,
             "known_findings": [k["what"] for k in known_hit],
             "exit_code": code,
         },
